@@ -389,6 +389,7 @@ func (child *partitionConsumer) dispatch() error {
 
 	child.broker = child.consumer.refBrokerConsumer(broker)
 
+	verifGate("pc.subscribe", child.topic, child.partition)
 	child.broker.input <- child
 
 	return nil
@@ -489,6 +490,7 @@ feederLoop:
 							break remainingLoop
 						}
 					}
+					verifGate("pc.resubscribe", child.topic, child.partition)
 					child.broker.input <- child
 					continue feederLoop
 				} else {
